@@ -44,6 +44,9 @@ CHECKS = {
  "C18": dict(cat="exploration", ref="4/C18", tech="property-based testing with a structural oracle: the pydot object of generated classes and instances (in every state reached by a generated history) is compared with the abstract machine",
    text="For generated machines the pydot.Dot of the class and of the instance in every state reached by a generated history is read back structurally: node set, the single initial pseudo-edge, the multiset of (source, target, events, guards) edges of external transitions, internal transitions listed inside their state and never as edges, double border iff final, exactly the current state (per sm.current_state) highlighted on instances and none on classes, and a pydot parse round-trip of to_string() (Graphviz rendering in the thorough tier).",
    note="Trusted: pydot's object model. State ids avoid 'i' (finding K5). Fonts, colours other than the active fill, and label layout are not asserted."),
+ "C08": dict(cat="exploration", ref="4/C08", tech="grammar-based property testing with a differential oracle: generated expression ASTs printed in the library dialect vs Python's eval of the canonical text, plus a negative family of malformed/unsupported strings",
+   text="Expression ASTs drawn from the documented grammar are printed in the library dialect (random operator spelling, optional whitespace removed where Python allows, redundant parentheses, chained comparisons, adversarial names) and as canonical Python; names are provided as methods, properties or attributes on machine/model/listener; 1-3 cond/unless entries per transition, declared with to(), from_() or from_.any(). For >=5 valuations each the transition must fire iff Python's eval says so, and the observable name-read sequence must equal Python's short-circuit order. Malformed, unsupported and unknown-name strings must raise InvalidDefinition at instantiation and nothing else, never at send time.",
+   note="Trusted: CPython's eval. Names under comparisons have one provider; coroutine operands (K1), operator spellings inside string literals (K4) and duplicate-equivalent entries (K8) are excluded and probed separately."),
 }
 def main():
     checks = []
